@@ -336,10 +336,11 @@ class ReservablePriorityReqFilterStore(FilterStore):
             # Successful reservation; add to reservations list
             item_len = len(self.reserved_events)
             #check if there any items that satisfy filter condition in other items thatare not already reserved
-            for item in self.items[item_len:]:
+            for offset, item in enumerate(self.items[item_len:]):
 
                 if event.filter(item):
-
+                  # bind the item that matched: move it to the reservation boundary (skipped items keep their order)
+                  self.items.insert(item_len, self.items.pop(item_len + offset))
 
                   self.reservations_get.append(event)
                   event.succeed()  # Immediately succeed the event
